@@ -14,7 +14,7 @@ from hypothesis import strategies as hst
 from sqv import core, hyp
 from sqv.core import Failure, Stats
 from sqv.monitor import Monitor
-from sqv.spec import refsem
+from sqv.spec import refparse, refsem
 from sqv.spec.neutral import neutral
 from sqv.values import canon
 
@@ -23,7 +23,9 @@ LEVEL = 'exploration'
 RULE = ('Hypothesis sequences (1-8 statements, then the host mutates its own object, then 1-3 more statements and a read of '
         'everything) over nested list/dict/tuple values (depth <= 4, shared sub-objects, host-supplied objects also held by '
         'the host): the four assignment forms x = e, c[k] = e, x += e, c[k] += e with sources that are literals, variables, '
-        'elements, containers built from variables, tuples from enumerate/items, map results, lambda parameters; mutations '
+        'elements, containers built from variables, x = x + [..], tuples from enumerate/items, map results, lambda parameters; '
+        '1 case in 5 calls a host function hf whose body is a parsed multi-statement program (ast_names) that assigns from its '
+        'parameter and mutates the copy or the source; mutations '
         'through either side (push/pop/insert/remove, index and compound index assignment, del, nested push). Oracles: '
         'reference value semantics on result and names; identity-disjointness invariant after every assignment-like node. '
         'Non-trivial: the assigned value contains a nested mutable and a later mutation targets something reachable from '
@@ -33,6 +35,8 @@ ASSUMPTIONS = ['for x += v / c[k] += v on lists the invariant covers the newly a
                'the monitor reads VMState.names.scopes when present and falls back to the host mapping otherwise']
 
 VARS = ['x', 'y', 'z', 'h']
+AST_BODIES = ['t = a\npush(t, 99)\nt', 't = a\nt[0] = 5\na', 't = [a]\nt[0].push(1)\nlen(a)', 'q = a\nq.push(7)\nq', 'w = {"k": a}\nw["k"].push(3)\n0',
+              't = a\na.push(4)\nt', 't = a\nu2 = t\nu2.push(6)\n[a, t, u2]', 'c = [0]\nc[0] = a\nc[0].push(2)\nc']
 _parser = None
 
 
@@ -93,8 +97,14 @@ def run_program(case):
         fails.append(Failure(sig, f'{src1!r} / host mutation / {src2!r}: {msg}'[:1400], case))
 
     try:
-        t1 = neutral(p.parse(src1))
-        t2 = neutral(p.parse(src2))
+        t1 = refparse.parse_text(src1)      # the reference runs on the tree the grammar derives from the text
+        t2 = refparse.parse_text(src2)
+        ast_i = ast_r = None
+        if case.get('ast'):
+            # the host supplies a function whose body is a parsed multi-statement program (ast_names)
+            from smartquery.ast_ops import LambdaOp, NameOp
+            ast_i = {'hf': LambdaOp([NameOp('a')], p.parse(case['ast']))}
+            ast_r = {'hf': ('Lambda', [('Name', 'a')], refparse.parse_text(case['ast']))}
     except Exception:  # noqa
         info['discard'] = True
         return fails, info
@@ -238,11 +248,11 @@ def run_program(case):
     mon.builtin_exc = builtin_exc
 
     def both(src, tree):
-        out, _ = refsem.run(tree, rnames)
+        out, _ = refsem.run(tree, rnames, ast_names=ast_r)
         gk, got, ge = 'value', None, None
         with mon.on():
             try:
-                got = p.eval(src, inames, max_ops_evaluated=10 ** 6)
+                got = p.eval(src, inames, ast_names=ast_i, max_ops_evaluated=10 ** 6)
             except ParserError as e:
                 gk, ge = 'lang', e
             except RecursionError as e:
@@ -254,7 +264,8 @@ def run_program(case):
     def compare(tag, out, gk, got, ge):
         if out[0] == 'unspec' or gk == 'recursion':
             return 'discard'
-        if out[0] in ('any', 'other'):
+        if out[0] in ('any', 'other', 'lang'):
+            # which class of error is raised is C07's / C16's question, not this property's
             if gk == 'value':
                 bad('class:error-expected', f'{tag}: reference expects an error, got {got!r}')
                 return 'fail'
@@ -386,9 +397,22 @@ def cases(draw):
             return f'{v}.insert(0, {src_expr()})'
         return f'{v}["k"].push(3)'
 
-    s1 = [stmt() for _ in range(1 + n(8))]
-    s2 = [stmt() for _ in range(n(3))] + ['[x, y, z, h]']
-    return {'src1': '\n'.join(s1), 'src2': '\n'.join(s2)}
+    ast = None
+    if n(5) == 0:
+        ast = pick(AST_BODIES)
+
+    def stmt2():
+        r = n(12)
+        v = pick(VARS)
+        if ast is not None and r < 3:
+            return pick([f'hf({v})', f'{pick(VARS)} = hf({v})', f'hf({v}[0])', f'{v}.hf()', f'[{v}] | map(e => hf(e))'])
+        if r == 3:
+            return pick([f'{v} = {v} + [{src_expr()}]', f'{v} = {v} + [1]', f'{v} = {v} + [[2], {pick(VARS)}]', f'{v} = {v} + []'])
+        return stmt()
+
+    s1 = [stmt2() for _ in range(1 + n(8))]
+    s2 = [stmt2() for _ in range(n(3))] + ['[x, y, z, h]']
+    return {'src1': '\n'.join(s1), 'src2': '\n'.join(s2), 'ast': ast}
 
 
 def nontrivial(case):
@@ -412,8 +436,8 @@ def run_job(job):
         if info.get('discard'):
             return hyp.Result(discard=True)
         st.add('assignment_invariant_checks', info['assign_checks'])
-        return hyp.Result(fails, nontrivial(case), ['outcome:' + str(info['outcome'])], key=case['src1'] + '\x00' + case['src2'],
-                          sample={'src1': case['src1'], 'src2': case['src2']})
+        return hyp.Result(fails, nontrivial(case), ['outcome:' + str(info['outcome'])], key=case['src1'] + '\x00' + case['src2'] + '\x00' + str(case.get('ast')),
+                          sample={'src1': case['src1'], 'src2': case['src2'], 'ast_names_body': case.get('ast')})
 
     hyp.drive(cases(), check, st, seed=seed, max_examples=n)
     return st
